@@ -246,7 +246,7 @@ def mem_stage(tier, seed, key, P):
     ords = P.collect_ords(res["files"], wd)
     design = json.load(open(os.path.join(P.SPEC, "Ord_design.json"))) if os.path.exists(os.path.join(P.SPEC, "Ord_design.json")) else {}
     diff = {k: [design.get(k), v] for k, v in ords.items() if design.get(k) != v}
-    out = {"viols": viols, "traces": res["execs"],
+    out = {"viols": viols, "traces": res["execs"], "ord_table": ords,
            "coverage": {"evaluations": res["execs"], "distinct_nontrivial": cross, "distinct_executions": len(seen),
                         "rule": "executions of the real crate with all atomic accesses logged, validated by TLC against spec/Trace_Mem.tla; distinct by hash of the event sequence; non-trivial = a value allocated by one thread is dereferenced by another thread",
                         "mem_events_validated": res["events"], "ord_table_sites": len(ords), "ord_table_diff": diff,
@@ -521,3 +521,118 @@ PROPS["C20"] = {"level": "exploration", "conc": False, "assumptions": [
     "relational oracle only: the encoding itself is serde's business; value shapes from spec/SerdeShapes.tla; serde_json as the format"]}
 for _p in ("C15", "C19", "C20"):
     NONTRIVIAL[_p] = ("see coverage", lambda evs: True)
+
+
+# ------------------------------------------------------------------ weak-memory clauses (C01 / C07): model checking with the
+# ordering table EXTRACTED from the real code
+def _meet(ords):
+    """the weakest common strength of a set of orderings (acquire part and release part separately)"""
+    acq = all(o in ("acq", "ar", "sc") for o in ords)
+    rel = all(o in ("rel", "ar", "sc") for o in ords)
+    sc = all(o == "sc" for o in ords)
+    return "sc" if sc else "acqrel" if acq and rel else "acq" if acq else "rel" if rel else "rlx"
+
+
+def weak_constants(table):
+    """table: {'file:line role kind': [ord, fail_ord]} -> (constants for WeakFast, constants for WeakHelp) or a reason why not"""
+    rows = []
+    for k, v in table.items():
+        loc, role, kind = k.split(" ")
+        f, line = loc.split(":")
+        rows.append((f, int(line), role, kind, v[0], v[1]))
+
+    def sel(f, role, kind):
+        return sorted([r for r in rows if r[0] == f and r[2] == role and r[3] == kind], key=lambda r: r[1])
+    stl = sel("hybrid.rs", "st", "load")
+    if len(stl) != 3:
+        return None, "expected 3 loads of the storage in hybrid.rs, found %d" % len(stl)
+    swaps = sel("lib.rs", "st", "swap") + sel("hybrid.rs", "st", "casw")
+    slot = sel("fast.rs", "fast", "swap")
+    pay = sel("mod.rs", "fast", "cas") + sel("mod.rs", "hslot", "cas")
+    if not swaps or len(slot) != 1 or not pay:
+        return None, "storage swap / slot swap / pay sites not found"
+    fences = [r for r in rows if r[0] == "hybrid.rs" and r[3] == "fence"]
+    pay_ok = _meet([r[4] for r in pay])
+    pay_fail = _meet([r[5] for r in pay])
+    r4 = "acq" if any(r[4] in ("acq", "ar", "sc") for r in fences) else pay_fail
+    fast = {"OrdFirst": _meet([stl[0][4]]), "OrdConfirm": _meet([stl[1][4]]), "OrdSlotSwap": _meet([slot[0][4]]),
+            "OrdStSwap": _meet([r[4] for r in swaps]), "OrdPayOk": pay_ok, "OrdPayFail": pay_fail, "OrdPayFailR4": r4}
+    ctrl = sel("helping.rs", "ctrl", "swap") + sel("helping.rs", "ctrl", "cas")
+    hs = sel("helping.rs", "hslot", "swap")
+    env = sel("helping.rs", "env", "load") + sel("helping.rs", "env", "store") + sel("helping.rs", "space", "store")
+    hl = sel("helping.rs", "ctrl", "load") + sel("helping.rs", "space", "load")
+    if len(ctrl) < 3 or len(hs) != 1 or not env or not hl:
+        return (fast, None), "helping sites not all observed (%d control accesses, %d slot swaps, %d envelope accesses, %d helper loads)" % (len(ctrl), len(hs), len(env), len(hl))
+    cords = [r[4] for r in ctrl] + [r[5] for r in ctrl if r[3] == "cas"]
+    helpc = {"OrdCand": _meet([stl[2][4]]), "OrdCtrl": _meet(cords), "OrdHslot": _meet([hs[0][4]]), "OrdEnv": _meet([r[4] for r in env]),
+             "OrdStSwap": fast["OrdStSwap"], "OrdPayOk": pay_ok, "OrdPayFail": pay_fail, "OrdHelpLoad": _meet([r[4] for r in hl])}
+    return (fast, helpc), ""
+
+
+def weak_stage(tier, seed, key, P):
+    import json, os, re
+    mem = mem_stage(tier, seed, key, P)
+    wd = os.path.join(P.CACHE, "%s-%s-%d-mem" % (key, tier, seed))
+    marker = os.path.join(wd, "weak.json")
+    if os.path.exists(marker):
+        return json.load(open(marker))
+    table = mem.get("ord_table", {})
+    consts, why = weak_constants(table)
+    out = {"viols": [], "traces": 0, "coverage": {"weak_model": {"mapped": consts is not None, "note": why}}, "samples": []}
+    states = trans = 0
+    runs = []
+    if consts is not None:
+        for spec, cs, nsw in (("WeakFast.tla", consts[0], 3), ("WeakHelp.tla", consts[1], 2)):
+            if cs is None:
+                continue
+            cfg = "SPECIFICATION Spec\nCONSTANTS NSwaps = %d\n" % nsw + "".join(' %s = "%s"\n' % kv for kv in cs.items()) + "INVARIANT Safe\nCHECK_DEADLOCK FALSE\n"
+            name = os.path.join(P.SPEC, "_weak_%d.cfg" % os.getpid())
+            open(name, "w").write(cfg)
+            try:
+                rc, o, wall = P.tlc(spec, os.path.basename(name), wd, workers=8, timeout=1500, heap="8g")
+            finally:
+                os.remove(name)
+            st, tr = P.mc_stats(o)
+            states += st
+            trans += tr
+            ok = "No error has been found" in o
+            runs.append({"spec": spec, "constants": cs, "states": st, "ok": ok, "wall": round(wall, 1)})
+            if not ok:
+                if "Invariant Safe is violated" not in o:
+                    raise P.ToolError("weak-memory model checking failed:\n" + o[-1500:])
+                errs = re.findall(r'err = "([\w-]+)"', o)
+                kind = [e for e in errs if e != "ok"][-1] if errs else "?"
+                prop = "C01" if kind.startswith("uaf") else "C07"
+                os.makedirs(P.REPLAYS, exist_ok=True)
+                rp = os.path.join(P.REPLAYS, "%s-weak-%s.json" % (prop, P.hashlib.sha256(json.dumps(cs, sort_keys=True).encode()).hexdigest()[:10]))
+                json.dump({"kind": "weak-model", "spec": spec, "constants": cs, "nswaps": nsw, "error": kind, "ordering_table": table,
+                           "counterexample": o[-20000:]}, open(rp, "w"))
+                text = {"C01": "a value is used after destruction in an execution permitted by the orderings the code requests (%s)" % kind,
+                        "C07": "a data race on the pointee is permitted by the orderings the code requests (%s)" % kind}[prop]
+                out["viols"].append({"id": 0, "prop": prop, "why": text + " [TLC counterexample of %s under the ordering table extracted from the code]" % spec,
+                                     "spec": spec, "ev": {"constants": cs}, "fam": "weak-model", "key": "%s/weak/%s/%s" % (prop, spec, kind), "replay": rp})
+    out["coverage"]["weak_model"]["runs"] = runs
+    out["coverage"]["states"] = states
+    out["coverage"]["transitions"] = trans
+    json.dump(out, open(marker, "w"))
+    return out
+
+
+def c07_stage(tier, seed, key, P):
+    a = mem_stage(tier, seed, key, P)
+    b = weak_stage(tier, seed, key, P)
+    cov = dict(a["coverage"])
+    cov.update(b["coverage"])
+    return {"viols": a["viols"] + b["viols"], "traces": a["traces"], "coverage": cov, "samples": a.get("samples", [])}
+
+
+def c01_extra(tier, seed, key, P):
+    b = weak_stage(tier, seed, key, P)
+    return {"viols": b["viols"], "traces": 0, "coverage": {"weak_model": b["coverage"]["weak_model"]}, "samples": []}
+
+
+EXTRA["C07"] = c07_stage
+EXTRA["C01"] = c01_extra
+PROPS["C07"]["level"] = "model_checking"
+PROPS["C07"]["assumptions"] = PROPS["C07"]["assumptions"] + [
+    "weak-memory clause: spec/WeakFast.tla and WeakHelp.tla (view-based, stale reads, DESIGN section 4) are model-checked with the ordering table extracted from the real code; a counterexample there is reported although it cannot be executed on this hardware"]
